@@ -82,6 +82,16 @@ def run(args) -> int:
         chk.violation(f'tt:{name}:inexpressible', f'truth tables of {name} cannot be expressed: {why}',
                       dict(kind='obligation', logic=name, obligation='tables expressible', detail=why),
                       found_input=False)
+    # the designated set is a set of the logic's own values (anything else cannot be expressed in, or compared by, the tables)
+    for L in logics:
+        foreign = sorted(set(L['designated']) - set(L['values']))
+        stray = [x for x in L.get('designated_repr', []) if not x.startswith(L.get('values_class', '') + '.')] if L.get('values_class') else []
+        chk.obligation(f"{L['name']}:designated values are values of the logic", not foreign and not stray)
+        if foreign or stray:
+            chk.violation(f"tt:{L['name']}:designated-not-a-value",
+                          f"{L['name']}: Meta.designated_values contains {foreign or stray}, not among the logic's values {L['values']}",
+                          dict(kind='truth_table', logic=L['name'], operator='designated', inputs=foreign or stray, observed=L['designated'],
+                               expected='a subset of ' + str(L['values'])), found_input=True)
     # ---- Status.v ---------------------------------------------------------
     st = [HEADER, 'Require Import GC07.Tables.\n']
     order = []
